@@ -943,7 +943,7 @@ func runMultiHistory(c *hx.Ctx, r *hx.Rng, idx int, workers int, thorough bool) 
 		maxSelfLevel:    []uint16{0, 2, 3}[r.Intn(3)],
 		levelMergeNum:   []int{8, 2, 3}[r.Intn(3)],
 		maxUnorderedNum: 64,
-		segRows:         []int{0, 0, 16}[r.Intn(3)],
+		segRows:         []int{0, 0, 16, 12}[r.Intn(4)],
 	}
 	applyKnobs(k)
 	defer resetKnobs()
